@@ -28,6 +28,7 @@ import (
 	"net/http"
 	"net/http/httptest"
 	"net/url"
+	"runtime"
 	"sort"
 	"strconv"
 	"strings"
@@ -1009,6 +1010,10 @@ func OpKeep(f []string) string {
 	tsa.reset([]string{"valid"}, nil)
 	logs.take()
 	client := newClient(1, legacy, nil)
+	// one P: per-P caches (sync.Pool and the like) hand the most recently released object back, so any
+	// sharing of reply storage between requests shows on the very next request instead of by chance
+	prevProcs := runtime.GOMAXPROCS(1)
+	defer runtime.GOMAXPROCS(prevProcs)
 	res, err, pan := guarded(func() (string, error) {
 		first, err := client.Timestamp(context.Background(), &pkcs9.Request{EncryptedDigest: []byte("first signature value"), Hash: crypto.SHA256, Legacy: legacy})
 		if err != nil {
